@@ -10,6 +10,7 @@ From Coq Require Import String ZArith List Bool.
 From Coq Require Import Permutation.
 From HD Require Import Base.Val C20_Model C20_Proofs C20_Proofs_Str C20_Proofs_Obj C20_Proofs_Ext.
 From HD Require Import C20_Model_Ref C20_Proofs_Ref.
+From HD Require Import C20_Model_Num C20_Proofs_Num.
 Import ListNotations.
 
 (* ------------------------------------------------------------------ *)
@@ -690,3 +691,122 @@ Example C20_ex_voi_refs_object_copy :
   run_obj_copy false 3 = VL [VB false; VB false].
 Proof. exact ex_voi_obj. Qed.
 Print Assumptions C20_ex_voi_refs_object_copy.
+
+(* ------------------------------------------------------------------ *)
+(* 16. the affine matrix from components (spatial.py                    *)
+(*     create_affine_matrix_from_components, behind Volume.from_components *)
+(*     and VolumeGeometry.from_components)                              *)
+
+(* in whatever form the caller holds the direction matrix (list / tuple,
+   float64 array, array of another dtype; (3, 3) or flat (9,)), and whether or
+   not the call is accepted, no write reaches the caller's array *)
+Theorem C20_affine_components_never_write : forall a, comp_written a = false.
+Proof. exact comp_never_writes. Qed.
+Print Assumptions C20_affine_components_never_write.
+
+(* np.asarray instead of np.array, or scaling the columns in place: each alone
+   writes to nothing of the caller's; both together (seed C20-m14) write into
+   the caller's array EXACTLY when the direction is passed as a float64 array;
+   what the array then holds (in quarters) differs from the matrix that was
+   passed exactly when the spacing is not 1 along every axis *)
+Theorem C20_asarray_inplace_refuted : forall a,
+  snd (run_ops View (comp_ops_asarray a)) = false /\
+  snd (run_ops View (comp_ops_inplace a)) = false /\
+  (snd (run_ops View (comp_ops_asarray_inplace a)) = true <-> (g_form a = DArr64 /\ g_dir a <> None)) /\
+  (forall d x y z, orthonormal d = true ->
+     (scale_cols d [x; y; z] = map (Z.mul 4) d <-> x = 4%Z /\ y = 4%Z /\ z = 4%Z)).
+Proof.
+  intros a. split; [exact (comp_asarray_alone_never_writes a)|]. split; [exact (comp_inplace_alone_never_writes a)|].
+  split; [exact (comp_asarray_inplace_writes_iff a)|]. exact scale_cols_unit_iff.
+Qed.
+Print Assumptions C20_asarray_inplace_refuted.
+
+(* an accepted call: the direction (the one passed, or the axis-aligned one of
+   the patient orientation) is an orthogonal matrix of unit vectors, the result
+   is that matrix with column j scaled by spacing[j] next to the position (or
+   the position derived from the center), three positive spacings *)
+Theorem C20_affine_components_spec : forall a m, comp_affine a = Ok m ->
+  exists d t,
+    comp_direction a = Ok d /\ orthonormal d = true /\
+    comp_translation a (scale_cols d (g_spacing a)) = Ok t /\
+    m = affine8 (scale_cols d (g_spacing a)) t /\
+    zlen (g_spacing a) = 3%Z /\ forallb (fun s => (0 <? s)%Z) (g_spacing a) = true.
+Proof. exact comp_affine_ok. Qed.
+Print Assumptions C20_affine_components_spec.
+
+(* accepted iff every guard holds; refused with TypeError or ValueError only;
+   the axis-aligned matrix of a valid patient orientation passes the check a
+   direction matrix has to pass *)
+Theorem C20_affine_components_accepts_iff : forall a,
+  ((exists m, comp_affine a = Ok m) <-> comp_accepts a = true) /\
+  (forall k, comp_affine a = Err k -> k = "TypeError"%string \/ k = "ValueError"%string) /\
+  (forall o, orient_ok o = true -> orthonormal (orient_dir o) = true).
+Proof.
+  intros a. split; [exact (comp_affine_accepts_iff a)|]. split; [exact (comp_affine_error_kind a)|].
+  exact orient_ok_orthonormal.
+Qed.
+Print Assumptions C20_affine_components_accepts_iff.
+
+(* ------------------------------------------------------------------ *)
+(* 17. numbers that are written as text (DS, 16 characters)             *)
+
+(* a number in fixed notation [-]digits.digits / in scientific notation
+   [-]d.digits e(+|-)digits passes pydicom's DS validator iff it has at most
+   16 characters *)
+Theorem C20_ds_shape_valid_iff_length :
+  (forall neg ip fp, forallb is_digit ip = true -> ip <> [] -> forallb is_digit fp = true ->
+     pydicom_valid_num DS (fixed_str neg ip fp) = (sign_len neg + zlen ip + 1 + zlen fp <=? 16)%Z) /\
+  (forall neg d fp eneg ep, is_digit d = true -> forallb is_digit fp = true -> forallb is_digit ep = true ->
+     ep <> [] ->
+     pydicom_valid_num DS (sci_str neg d fp eneg ep) = (sign_len neg + 4 + zlen fp + zlen ep <=? 16)%Z).
+Proof. exact (conj ds_fixed_valid_iff ds_sci_valid_iff). Qed.
+Print Assumptions C20_ds_shape_valid_iff_length.
+
+(* DS(x, auto_format=True) / format_number_as_ds: with the number of decimals
+   it asks for (fixed: 14 - sign - max(e, 0) for floor(log10 |x|) = e and e + 1
+   integer digits - one for e <= 0 -; scientific: 10 - sign, one less for a
+   three-digit exponent) the string has exactly 16 characters and is valid.
+   PREMISE (float formatting, outside the model): C's %f / %e produce these
+   shapes with that many integer digits. *)
+Theorem C20_ds_auto_format_fills_16 :
+  (forall neg e ip fp, forallb is_digit ip = true -> forallb is_digit fp = true ->
+     zlen ip = (if 1 <=? e then e + 1 else 1)%Z -> zlen fp = fixed_decimals neg e ->
+     pydicom_valid_num DS (fixed_str neg ip fp) = true /\ zlen (fixed_str neg ip fp) = 16%Z) /\
+  (forall neg d fp eneg ep ne, is_digit d = true -> forallb is_digit fp = true -> forallb is_digit ep = true ->
+     (ne = 2 \/ ne = 3)%Z -> zlen ep = ne -> zlen fp = sci_decimals neg ne ->
+     pydicom_valid_num DS (sci_str neg d fp eneg ep) = true /\ zlen (sci_str neg d fp eneg ep) = 16%Z).
+Proof. exact (conj ds_auto_fixed_valid ds_auto_sci_valid). Qed.
+Print Assumptions C20_ds_auto_format_fills_16.
+
+(* what an element holds: the auto-formatted value is valid whenever the repr
+   is a decimal number and the re-formatted string is valid; a plain float
+   (written with its repr, seed C20-m15) is valid iff its repr has at most 16
+   characters - 0.1 + 0.2 has 19 *)
+Theorem C20_ds_auto_valid_plain_float_refuted :
+  (forall repr formatted, ds_regex repr = true -> pydicom_valid_num DS formatted = true ->
+     pydicom_valid_num DS (ds_auto repr formatted) = true) /\
+  (forall repr formatted, ds_regex repr = true -> repr <> [] ->
+     (pydicom_valid_num DS (ds_plain repr formatted) = true <-> (zlen repr <= 16)%Z)) /\
+  (ds_regex repr_sum = true /\ pydicom_valid_num DS fmt_sum = true /\
+   pydicom_valid_num DS (ds_plain repr_sum fmt_sum) = false /\
+   pydicom_valid_num DS (ds_auto repr_sum fmt_sum) = true).
+Proof. exact (conj ds_auto_valid (conj ds_plain_valid_iff ds_plain_refuted)). Qed.
+Print Assumptions C20_ds_auto_valid_plain_float_refuted.
+
+Example C20_ex_components_decimal_strings :
+  comp_accepts (ex_args DArr64) = true /\
+  comp_affine (ex_args DArr64) = Ok [0; -4; 0; 80; 20; 0; 0; -160; 0; 0; 6; 244; 0; 0; 0; 8]%Z /\
+  comp_written (ex_args DArr64) = false /\
+  snd (run_ops View (comp_ops_asarray_inplace (ex_args DArr64))) = true /\
+  snd (run_ops View (comp_ops_asarray_inplace (ex_args DSeq))) = false /\
+  scale_cols [0; -1; 0; 1; 0; 0; 0; 0; 1]%Z [10; 2; 3]%Z = [0; -2; 0; 10; 0; 0; 0; 0; 3]%Z /\
+  run_affine_components 1 1 (Some [1; 0; 0; 0; 0; -1; 0; 1; 0]%Z) None [10; 2; 3]%Z None (Some [40; -80; 122]%Z)
+      (Some [2; 3; 4]%Z)
+    = VL [VB false; vz_list [20; 0; 0; 70; 0; 0; -6; -151; 0; 4; 0; 240; 0; 0; 0; 8]%Z] /\
+  run_affine_components 0 0 None (Some [5; 2; 0]%Z) [4; 4; 4]%Z (Some [0; 0; 0]%Z) None None
+    = VL [VB false; vz_list [0; 0; 8; 0; 0; 8; 0; 0; -8; 0; 0; 0; 0; 0; 0; 8]%Z] /\
+  run_affine_components 1 0 (Some [2; 0; 0; 0; 1; 0; 0; 0; 1]%Z) None [4; 4; 4]%Z (Some [0; 0; 0]%Z) None None
+    = VErr "ValueError" /\
+  run_valid_num DS repr_sum = VB false /\ run_valid_num DS fmt_sum = VB true.
+Proof. exact ex_components. Qed.
+Print Assumptions C20_ex_components_decimal_strings.
